@@ -569,7 +569,14 @@ struct SrcInstr { time: i32, opcode: u16, mask: Option<i64>, pop: Option<i64>, e
                   /// the instruction is written with a mapfile name that maps to this opcode
                   alias: Option<(String, i64)>,
                   /// false when the source gives no @blob (arguments encoded through a signature): the blob is not compared
-                  blob_known: bool }
+                  blob_known: bool,
+                  /// the arguments are written as expressions for the signature `SS` (mapfile sig.eclm): first argument and the
+                  /// cases of the second (one value, or four joined by `:` = a difficulty switch)
+                  known: Option<(i32, Vec<i32>)>,
+                  /// a difficulty label `{"EN"}:` in front of the statement
+                  dlabel: Option<String>,
+                  /// this asked instruction is one copy of a difficulty switch (set by expand_script)
+                  from_switch: bool }
 
 fn blob_text(b: &[u8]) -> String { hex(b) }
 
@@ -579,8 +586,34 @@ fn instr_text(i: &SrcInstr) -> String {
     if let Some(m) = i.pop { ps.push(format!("@pop={}", m)); }
     if let Some(m) = i.extra { ps.push(format!("@arg0={}", m)); }
     if let Some(m) = i.argc { ps.push(format!("@nargs={}", m)); }
-    ps.push(format!("@blob=\"{}\"", blob_text(&i.blob)));
-    match &i.alias { Some((n, _)) => format!("{}({});", n, ps.join(", ")), None => format!("ins_{}({});", i.opcode, ps.join(", ")) }
+    match &i.known {
+        Some((a, cases)) => { ps.push(format!("{}", a)); ps.push(cases.iter().map(|c| c.to_string()).collect::<Vec<_>>().join(":")); }
+        None => ps.push(format!("@blob=\"{}\"", blob_text(&i.blob))),
+    }
+    let lab = i.dlabel.as_ref().map(|l| format!("{{\"{}\"}}: ", l)).unwrap_or_default();
+    let call = match &i.alias { Some((n, _)) => format!("{}({});", n, ps.join(", ")), None => format!("ins_{}({});", i.opcode, ps.join(", ")) };
+    format!("{}{}", lab, call)
+}
+
+/// the instructions the compiler must emit for a script: a difficulty switch becomes one copy per difficulty that the
+/// statement's label admits (E, N, H, L in this order), each with the pseudo-arguments of the statement
+fn expand_script(l: &[SrcInstr]) -> Vec<SrcInstr> {
+    let mut out = vec![];
+    for i in l {
+        match &i.known {
+            None => out.push(SrcInstr { alias: i.alias.clone(), blob: i.blob.clone(), known: None, dlabel: i.dlabel.clone(), ..*i }),
+            Some((a, cases)) => {
+                let picks: Vec<usize> = if cases.len() == 1 { vec![0] } else {
+                    match &i.dlabel { None => (0..cases.len()).collect(), Some(l) => "ENHL".chars().enumerate().filter(|(_, c)| l.contains(*c)).map(|(k, _)| k).collect() }
+                };
+                for k in picks {
+                    let mut blob = a.to_le_bytes().to_vec(); blob.extend(cases[k].to_le_bytes());
+                    out.push(SrcInstr { alias: None, blob, blob_known: i.opcode == 900, known: None, dlabel: i.dlabel.clone(), from_switch: cases.len() > 1, ..*i });
+                }
+            }
+        }
+    }
+    out
 }
 
 fn body_text(l: &[SrcInstr]) -> String {
@@ -601,7 +634,7 @@ fn asked_of(sf: Fmt, i: &SrcInstr) -> Asked {
 }
 
 fn gen_src_instr(sf: Fmt, rng: &mut Rng, big: bool) -> SrcInstr {
-    let mut i = SrcInstr { time: 0, opcode: rng.range(1, 90) as u16, mask: None, pop: None, extra: None, argc: None, alias: None, blob_known: true,
+    let mut i = SrcInstr { time: 0, opcode: rng.range(1, 90) as u16, mask: None, pop: None, extra: None, argc: None, alias: None, blob_known: true, known: None, dlabel: None, from_switch: false,
                            blob: vec![rng.below(256) as u8; if sf == Fmt::Std06 { 12 } else { 4 * rng.below(3) as usize }] };
     match rng.below(12) {
         0 | 1 => i.opcode = *rng.pick(&OPCODES),
@@ -671,6 +704,54 @@ fn sanitize(sf: Fmt, i: &mut SrcInstr, rng: &mut Rng) {
     if sf == Fmt::Std06 && i.blob.len() != 12 { i.blob = vec![7; 12]; }
 }
 
+/// characters of header strings: ASCII, 2-byte UTF-8 and 3-byte UTF-8, with their Shift-JIS bytes (1 or 2 bytes;
+/// the half-width katakana is 3 bytes of UTF-8 and 1 byte of Shift-JIS)
+const NAME_CHARS: [(char, &[u8]); 8] = [('a', &[0x61]), ('b', &[0x62]), ('\u{a7}', &[0x81, 0x98]), ('\u{3b1}', &[0x83, 0xbf]), ('\u{42f}', &[0x84, 0x60]),
+                                        ('\u{3042}', &[0x82, 0xa0]), ('\u{ff71}', &[0xb1]), ('\u{3002}', &[0x81, 0x42])];
+fn sjis(s: &str) -> Option<Vec<u8>> {
+    let mut out = vec![];
+    for c in s.chars() {
+        if c.is_ascii() { out.push(c as u8); continue; }
+        out.extend_from_slice(NAME_CHARS.iter().find(|p| p.0 == c)?.1);
+    }
+    Some(out)
+}
+fn gen_name(rng: &mut Rng, ext: &str) -> String {
+    let n = 1 + rng.below(7) as usize;
+    let mut s: String = (0..n).map(|_| rng.pick(&NAME_CHARS).0).collect();
+    s.push_str(ext);
+    s
+}
+fn name_list(rng: &mut Rng, ext: &str) -> Vec<String> { let n = rng.below(4) as usize; (0..n).map(|_| gen_name(rng, ext)).collect() }
+fn list_text(l: &[String]) -> String { format!("[{}]", l.iter().map(|s| format!("\"{}\"", s)).collect::<Vec<_>>().join(", ")) }
+
+/// a statement `ins_900(<pseudo-args>, a, c0:c1:c2:c3)` (signature SS from sig.eclm), possibly under a difficulty label
+fn gen_switch_instr(sf: Fmt, rng: &mut Rng) -> SrcInstr {
+    let base = rng.range(0, 50) as i32 * 10;
+    let cases: Vec<i32> = if rng.chance(3, 4) { (0..4).map(|k| base + k + 1).collect() } else { vec![base] };
+    let mut i = SrcInstr { time: 0, opcode: 900, mask: None, pop: None, extra: None, argc: None, alias: None, blob_known: false, blob: vec![],
+                           known: Some((rng.range(-3, 300) as i32, cases)), dlabel: None, from_switch: false };
+    if sf.stores("mask") && rng.chance(2, 3) { i.mask = Some(*rng.pick(&[0i64, 1, 2, 3, 65535])); }
+    if sf.stores("pop") && rng.chance(1, 3) { i.pop = Some(*rng.pick(&[1i64, 4, 255])); }
+    if sf.stores("argc") && rng.chance(1, 3) { i.argc = Some(*rng.pick(&[1i64, 2, 255])); }
+    if rng.chance(1, 3) { i.dlabel = Some(rng.pick(&["EN", "HL", "ENHL", "E", "NH"]).to_string()); }
+    i
+}
+/// put one or two such statements into a script (keeping the time labels monotone with their neighbours)
+fn add_switch_instrs(sf: Fmt, l: &mut Vec<SrcInstr>, rng: &mut Rng) {
+    for _ in 0..1 + rng.below(2) {
+        let at = rng.below(l.len() as u64 + 1) as usize;
+        let mut i = gen_switch_instr(sf, rng);
+        i.time = if at > 0 { l[at - 1].time } else { 0 };
+        l.insert(at, i);
+    }
+}
+fn sig_mapfile() -> String {
+    let mp = work_dir("c03").join("sig.eclm");
+    std::fs::write(&mp, "!eclmap\n!ins_signatures\n900 SS\n!difficulty_flags\n0 E-\n1 N-\n2 H-\n3 L-\n4 4-\n5 5-\n6 6-\n7 7-\n").unwrap();
+    format!("#pragma mapfile \"{}\"\n", mp.display())
+}
+
 struct SrcCase { fmt: Fmt, game: Game, text: String, scripts: Vec<(Fmt, Vec<SrcInstr>)>, note: String }
 
 fn src_case(fmt: Fmt, game: Game, rng: &mut Rng, big: bool) -> SrcCase {
@@ -681,7 +762,8 @@ fn src_case(fmt: Fmt, game: Game, rng: &mut Rng, big: bool) -> SrcCase {
         Fmt::AnmV0 | Fmt::AnmV2 => {
             let nscripts = 1 + rng.below(3) as usize;
             let nsprites = *rng.pick(&[0usize, 1, 2, 3]);
-            let mut meta = vec!["path: \"a.png\"".to_string(), "has_data: false".into(), "img_width: 16".into(), "img_height: 16".into(), "img_format: 1".into()];
+            let path = if rng.chance(1, 2) { gen_name(rng, ".png") } else { "a.png".to_string() };
+            let mut meta = vec![format!("path: \"{}\"", path), "has_data: false".into(), "img_width: 16".into(), "img_height: 16".into(), "img_format: 1".into()];
             if rng.chance(1, 4) { let v = *rng.pick(&[256i64, 65535, 32768, 512, 65536]); meta.push(format!("rt_width: {}", v)); write!(note, " rt_width={}", v).unwrap(); }
             if rng.chance(1, 6) { let v = *rng.pick(&[256i64, 65535, 1024, 131072]); meta.push(format!("rt_height: {}", v)); write!(note, " rt_height={}", v).unwrap(); }
             if rng.chance(1, 6) { let v = *rng.pick(&[0i64, 65535, 9, 300, 70000]); meta.push(format!("offset_x: {}", v)); write!(note, " offset_x={}", v).unwrap(); }
@@ -719,7 +801,13 @@ fn src_case(fmt: Fmt, game: Game, rng: &mut Rng, big: bool) -> SrcCase {
             }
         }
         Fmt::Std06 | Fmt::Std10 => {
-            text.push_str(&template_source(fmt, Layout::Last).replace("script main { }\n", ""));
+            let mut head = template_source(fmt, Layout::Last).replace("script main { }\n", "");
+            if rng.chance(2, 3) {
+                head = head.replace("stage_name: \"dm\"", &format!("stage_name: \"{}\"", gen_name(rng, "")))
+                           .replacen("{path: \"a\", name: \"b\"}", &format!("{{path: \"{}\", name: \"{}\"}}", gen_name(rng, ".mid"), gen_name(rng, "")), 1)
+                           .replace("anm_path: \"stage01.anm\"", &format!("anm_path: \"{}\"", gen_name(rng, ".anm")));
+            }
+            text.push_str(&head);
             let l = gen_src_script(fmt, rng, big);
             writeln!(text, "script main {{ {} }}", body_text(&l)).unwrap();
             scripts.push((fmt, l));
@@ -727,17 +815,22 @@ fn src_case(fmt: Fmt, game: Game, rng: &mut Rng, big: bool) -> SrcCase {
         Fmt::Ecl06 | Fmt::Ecl06Th06 | Fmt::Tl06 | Fmt::Tl08 => {
             let (ef, tf) = olde_fmts_game(game);
             let tl = gen_src_script(tf, rng, false);
-            let sub = gen_src_script(ef, rng, big);
+            let mut sub = gen_src_script(ef, rng, big);
+            if rng.chance(2, 3) { text.push_str(&sig_mapfile()); add_switch_instrs(ef, &mut sub, rng); }
             writeln!(text, "script timeline0 {{ {} }}", body_text(&tl)).unwrap();
             writeln!(text, "void sub0() {{ {} }}", body_text(&sub)).unwrap();
             scripts.push((ef, sub));
             scripts.push((tf, tl));
         }
         Fmt::Ecl10 => {
-            text.push_str("meta { ecli: [], anim: [] }\n");
+            let with_sw = rng.chance(2, 3);
+            if with_sw { text.push_str(&sig_mapfile()); }
+            let (anim, ecli) = (name_list(rng, ".anm"), name_list(rng, ".ecl"));
+            writeln!(text, "meta {{ ecli: {}, anim: {} }}", list_text(&ecli), list_text(&anim)).unwrap();
             let n = 1 + rng.below(2) as usize;
             for k in 0..n {
-                let l = gen_src_script(fmt, rng, big && k == 0);
+                let mut l = gen_src_script(fmt, rng, big && k == 0);
+                if with_sw && k == 0 { add_switch_instrs(fmt, &mut l, rng); }
                 writeln!(text, "void f{}() {{ {} }}", k, body_text(&l)).unwrap();
                 scripts.push((fmt, l));
             }
@@ -784,6 +877,7 @@ fn parse_asked(fmt: Fmt, game: Game, text: &str) -> Option<Vec<(Fmt, Vec<SrcInst
 fn parse_body(body: &str) -> Option<Vec<SrcInstr>> {
     let mut out = vec![];
     let mut time = 0i32;
+    let mut pending_label: Option<String> = None;
     let mut rest = body.trim_start();
     while !rest.is_empty() {
         // time label
@@ -794,6 +888,7 @@ fn parse_body(body: &str) -> Option<Vec<SrcInstr>> {
                 let l = rest[..le].trim();
                 if let Some(r) = l.strip_prefix('+') { time = time.checked_add(r.trim().parse().ok()?)?; }
                 else if let Ok(t) = l.parse::<i32>() { time = t; }
+                else if l.starts_with("{\"") && l.ends_with("\"}") { pending_label = Some(l[2..l.len() - 2].to_string()); }
                 else { return None; }     // a named label or something outside the subset
                 rest = rest[le + 1..].trim_start();
                 continue;
@@ -807,7 +902,8 @@ fn parse_body(body: &str) -> Option<Vec<SrcInstr>> {
         let name = stmt[..op].trim();
         let args = stmt[op + 1..stmt.rfind(')')?].trim();
         let opcode: u16 = name.strip_prefix("ins_")?.parse().ok()?;
-        let mut i = SrcInstr { time, opcode, mask: None, pop: None, extra: None, argc: None, blob: vec![], alias: None, blob_known: false };
+        let mut i = SrcInstr { time, opcode, mask: None, pop: None, extra: None, argc: None, blob: vec![], alias: None, blob_known: false, known: None, dlabel: pending_label.take(), from_switch: false };
+        let mut plain: Vec<Vec<i32>> = vec![];
         for a in args.split(',').map(|a| a.trim()).filter(|a| !a.is_empty()) {
             let (k, v) = a.split_once('=').map(|(k, v)| (k.trim(), v.trim())).unwrap_or((a, ""));
             match k {
@@ -817,8 +913,19 @@ fn parse_body(body: &str) -> Option<Vec<SrcInstr>> {
                 "@nargs" => i.argc = Some(parse_int(v)?),
                 "@blob" => { let h: String = v.trim_matches('"').chars().filter(|c| !c.is_whitespace()).collect();
                              i.blob = (0..h.len() / 2).map(|k| u8::from_str_radix(&h[2 * k..2 * k + 2], 16).ok()).collect::<Option<Vec<u8>>>()?; i.blob_known = true; }
-                _ => {}       // an ordinary argument: encoded through a signature, not compared
+                _ => {
+                    // an ordinary argument: integers and difficulty switches of integers are understood (signature SS)
+                    let cs: Option<Vec<i32>> = a.trim_matches(|c| c == '(' || c == ')').split(':').map(|x| x.trim().parse::<i32>().ok()).collect();
+                    match cs { Some(cs) => plain.push(cs), None => plain.push(vec![]) }
+                }
             }
+        }
+        if !i.blob_known && opcode == 900 && plain.len() == 2 && plain[0].len() == 1 && !plain[1].is_empty() {
+            i.known = Some((plain[0][0], plain[1].clone()));
+        } else if !i.blob_known {
+            // another signature: the argument bytes are not predicted, the number of per-difficulty copies is
+            let n = plain.iter().map(|c| c.len()).max().unwrap_or(1).max(1);
+            i.known = Some((0, vec![0; n]));
         }
         out.push(i);
     }
@@ -880,6 +987,7 @@ fn check_source(fmt: Fmt, game: Game, text: &str, asked: Option<&[(Fmt, Vec<SrcI
     }
     let bytes = match std::fs::read(&out) { Ok(b) => b, Err(_) => {
         println!("ORACLE-FAIL\tc03 format={} field=no-output\texit 0 but no output file\t{}", fmt.name(), short_input); return; } };
+    emit_string_list_cases(fmt, text, &bytes);
     let back = read_file(fmt, game, &bytes);
     let inproc = compile_source(fmt, game, text);
     stats.bump(&format!("src-{}:{}", fmt.name(), match &back { Ok(Ok(_)) => "ok", Ok(Err(_)) => "unreadable", Err(_) => "readpanic" }));
@@ -923,11 +1031,13 @@ fn check_source(fmt: Fmt, game: Game, text: &str, asked: Option<&[(Fmt, Vec<SrcI
         // sources that rely on built-in signatures cannot be compiled in-process (core mapfiles are private to truth)
         stats.bump(&format!("src-{}:no-inprocess-compile", fmt.name()));
     }
+    check_header_strings(fmt, text, back_file, &short_input);
     // (b) against what the source asked for
     let parsed;
     let asked = match asked { Some(a) => Some(a), None => { parsed = parse_asked(fmt, game, text); parsed.as_deref() } };
     if let Some(asked) = asked {
-        for (k, ((sf, want), (_, b))) in asked.iter().zip(&back_scripts).enumerate() {
+        for (k, ((sf, want_src), (_, b))) in asked.iter().zip(&back_scripts).enumerate() {
+            let want = &expand_script(want_src);
             if want.len() != b.instrs.len() {
                 println!("ORACLE-FAIL\tc03 format={} field={}\tscript {}: source has {} instructions, file reads back {}\t{}", sf.name(), src_field(Some(asked), Some(k)), k, want.len(), b.instrs.len(), short_input);
                 continue;
@@ -951,6 +1061,7 @@ fn check_source(fmt: Fmt, game: Game, text: &str, asked: Option<&[(Fmt, Vec<SrcI
                         field = match unfit_field(*sf, &ri) { Some(u) if !u.ends_with("-unstored") => u.to_string(), _ => format!("{}-in-range", f) };
                     }
                     if *f == "opcode" && w.alias.is_some() { field = "mapfile-opcode".to_string(); }
+                    if w.from_switch && !field.ends_with("-in-range") { field = format!("{}-diffswitch", field); }
                     if field.starts_with("pseudo-") || field == "mapfile-opcode" {
                         println!("ORACLE-FAIL\tc03 field={}\t{} script {} instr {}: source asks {} = {}, file reads back {}\t{}", field, sf.name(), k, j, f, x, y, short_input);
                     } else {
@@ -959,6 +1070,67 @@ fn check_source(fmt: Fmt, game: Game, text: &str, asked: Option<&[(Fmt, Vec<SrcI
                     break;
                 }
             }
+        }
+    }
+}
+
+/// `key: ["a", "b"]` in a meta block of the generator's subset (no escapes)
+fn quoted_list(text: &str, key: &str) -> Option<Vec<String>> {
+    let at = text.find(&format!("{}: [", key))?;
+    let rest = &text[at + key.len() + 3..];
+    let end = rest.find(']')?;
+    Some(rest[..end].split('"').enumerate().filter(|(k, _)| k % 2 == 1).map(|(_, s)| s.to_string()).collect())
+}
+fn quoted_value(text: &str, key: &str) -> Option<String> {
+    let at = text.find(&format!("{}: \"", key))?;
+    let rest = &text[at + key.len() + 3..];
+    Some(rest[..rest.find('"')?].to_string())
+}
+
+/// model comparison of the ANIM / ECLI string lists of a stack-ECL file: the strings of the source as Shift-JIS bytes
+/// (encoded here from a fixed table, not by truth) against the bytes of the file
+fn emit_string_list_cases(fmt: Fmt, text: &str, bytes: &[u8]) {
+    if fmt != Fmt::Ecl10 { return; }
+    let (Some(anim), Some(ecli)) = (quoted_list(text, "anim"), quoted_list(text, "ecli")) else { return };
+    let enc = |l: &[String]| -> Option<String> { Some(format!("[{}]", l.iter().map(|s| sjis(s).map(|b| rle(&b))).collect::<Option<Vec<_>>>()?.join("; "))) };
+    let (Some(ea), Some(ee)) = (enc(&anim), enc(&ecli)) else { return };
+    // header: "SCPT" i16 i16 i32 u32 u32 4*u32 = 0x24 bytes, then "ANIM" count strings, "ECLI" count strings
+    if bytes.len() < 0x2c || &bytes[0x24..0x28] != b"ANIM" { return; }
+    let region = &bytes[0x2c..bytes.len().min(0x2c + 600)];
+    println!("SCRIPT\t(KStrList {} {} {})\tsrc ecl10 anim list {:?}", ea, rle(b"ECLI"), rle(region), anim);
+    // the ECLI list starts 8 bytes after its magic; the model's own length of the ANIM list tells where that is
+    let anim_len: usize = { let n: usize = anim.iter().map(|s| sjis(s).unwrap().len() + 1).sum(); (n + 3) / 4 * 4 };
+    let at = 0x2c + anim_len + 8;
+    if at <= bytes.len() {
+        println!("SCRIPT\t(KStrList {} [] {})\tsrc ecl10 ecli list {:?}", ee, rle(&bytes[at..bytes.len().min(at + 600)]), ecli);
+    }
+}
+
+/// exit 0 => every header string / list of the written file equals the source
+fn check_header_strings(fmt: Fmt, text: &str, back: &FileBox, input: &str) {
+    let mut pairs: Vec<(&str, Vec<String>, Vec<String>)> = vec![];
+    match back {
+        FileBox::Stack(f) => {
+            if let Some(l) = quoted_list(text, "anim") { pairs.push(("anim", l, f.anim_list.iter().map(|s| s.value.clone()).collect())); }
+            if let Some(l) = quoted_list(text, "ecli") { pairs.push(("ecli", l, f.ecli_list.iter().map(|s| s.value.clone()).collect())); }
+        }
+        FileBox::Anm(f) => {
+            if let (Some(p), Some(e)) = (quoted_value(text, "path"), f.entries.first()) { pairs.push(("path", vec![p], vec![e.path.value.clone()])); }
+        }
+        FileBox::Std(f) => match &f.extra {
+            truth::std::StdExtra::Th06 { stage_name, bgm } => {
+                if let Some(p) = quoted_value(text, "stage_name") { pairs.push(("stage_name", vec![p], vec![stage_name.value.clone()])); }
+                if let Some(p) = quoted_value(text, "{path") { pairs.push(("bgm path", vec![p], vec![bgm[0].path.value.clone()])); }
+            }
+            truth::std::StdExtra::Th10 { anm_path } => {
+                if let Some(p) = quoted_value(text, "anm_path") { pairs.push(("anm_path", vec![p], vec![anm_path.value.clone()])); }
+            }
+        },
+        _ => {}
+    }
+    for (what, asked, got) in pairs {
+        if asked != got {
+            println!("ORACLE-FAIL\tc03 format={} field=header-string\t{}: the source says {:?}, the written file reads back {:?}\t{}", fmt.name(), what, asked, got, input);
         }
     }
 }
